@@ -8,13 +8,15 @@ verif="$(pwd)"
 if [ $# -eq 0 ]; then set -- $(ls -d seeded/*/m* | sed 's|seeded/||'); fi
 vcommit=$(git -C "$verif" rev-parse --short HEAD)
 for item in "$@"; do
-  id="${item%%/*}"; name="${item##*/}"; d="$verif/seeded/$id/$name"
+  # item = <ID>/<mK> or <ID>/<mK>@<CHECK-ID> (a change seeded for one property may be caught by the check of another)
+  chk=""; case "$item" in *@*) chk="${item##*@}"; item="${item%@*}";; esac
+  id="${item%%/*}"; name="${item##*/}"; d="$verif/seeded/$id/$name"; chk="${chk:-$id}"
   [ -f "$d/patch.diff" ] || { echo "$item: no patch"; continue; }
   wt=$(mktemp -d /tmp/rmut.XXXXXX)
   git -C /repo worktree add -q --detach "$wt" HEAD
   if git -C "$wt" apply "$d/patch.diff" 2>/dev/null; then
     t0=$(date +%s)
-    out=$(VF_SHRINK=0 VF_REPO="$wt" VERIF_SEED="${VERIF_SEED:-1}" "$verif/check" "$id" quick 2>&1); rc=$?
+    out=$(VF_SHRINK=0 VF_REPO="$wt" VERIF_SEED="${VERIF_SEED:-1}" "$verif/check" "$chk" quick 2>&1); rc=$?
     t1=$(date +%s)
     nviol=$(echo "$out" | grep -c "^VIOLATION")
     first=$(echo "$out" | grep -A1 "^VIOLATION" | head -2 | tail -1 | cut -c1-300)
@@ -23,11 +25,12 @@ for item in "$@"; do
     rc=-1; nviol=0; first="patch does not apply to the current tree"; applied=0; t0=0; t1=0
   fi
   git -C /repo worktree remove --force "$wt" >/dev/null 2>&1; rm -rf "$wt"
-  /venv/bin/python - "$d/meta.json" "$rc" "$nviol" "$first" "$vcommit" "$applied" "$((t1-t0))" "${VERIF_SEED:-1}" <<'PY'
+  /venv/bin/python - "$d/meta.json" "$rc" "$nviol" "$first" "$vcommit" "$applied" "$((t1-t0))" "${VERIF_SEED:-1}" "$chk" "$id" <<'PY'
 import json, sys
-f, rc, nviol, first, vc, applied, secs, seed = sys.argv[1:]
+f, rc, nviol, first, vc, applied, secs, seed, chk, pid = sys.argv[1:]
 m = json.load(open(f))
-m['recheck'] = dict(verif_commit=vc, repo_head=None, applied=bool(int(applied)), exit=int(rc), violations=int(nviol),
+key = 'recheck' if chk == pid else 'recheck_' + chk
+m[key] = dict(check=chk, verif_commit=vc, repo_head=None, applied=bool(int(applied)), exit=int(rc), violations=int(nviol),
                     first=first, detected=int(rc) == 1, seconds=int(secs), seed=int(seed))
 json.dump(m, open(f, 'w'), indent=1)
 print(f, 'exit', rc, 'violations', nviol, 'DETECTED' if int(rc) == 1 else ('NOAPPLY' if not int(applied) else 'MISSED'), secs, 's')
